@@ -64,6 +64,33 @@ func registerExternals(m *Machine) {
 		}
 		return math.Abs(a[0].(float64))
 	}
+	// math.Mod: exact on concrete operands and on integer-valued operands below
+	// 2^53 with a non-zero divisor (the truncating integer remainder); otherwise
+	// the result is an unconstrained value of the environment (havoc).
+	e["math.Mod"] = func(m *Machine, fr *frame, a []value) value {
+		if !isSym(a[0]) && !isSym(a[1]) {
+			return math.Mod(a[0].(float64), a[1].(float64))
+		}
+		c := m.Ctx
+		x, y := m.termOf(a[0], types.Typ[types.Float64]), m.termOf(a[1], types.Typ[types.Float64])
+		lim := c.FPC(9007199254740992.0)
+		isInt := func(t *sym.Term) *sym.Term {
+			return c.And(c.FpCmp(sym.OFpEq, c.FpRound(t, sym.RTZ), t), c.FpCmp(sym.OFpLt, c.FpAbs(t), lim))
+		}
+		dom := c.And(isInt(x), isInt(y), c.Not(c.FpCmp(sym.OFpEq, y, c.FPC(0))))
+		exact := c.FpFromSBV(c.BvBin(sym.OBvSRem, c.FpToSBV(x), c.FpToSBV(y)))
+		// sign of a zero result follows the dividend
+		exact = c.Ite(c.And(c.FpCmp(sym.OFpEq, exact, c.FPC(0)), c.FpCmp(sym.OFpLt, x, c.FPC(0))), c.FPC(math.Copysign(0, -1)), exact)
+		cx, cy := conc(a[0]).(float64), conc(a[1]).(float64)
+		native := math.Mod(cx, cy)
+		inDom := cx == math.Trunc(cx) && cy == math.Trunc(cy) && math.Abs(cx) < 9007199254740992.0 && math.Abs(cy) < 9007199254740992.0 && cy != 0
+		h := m.havocFloat("math.Mod", native)
+		if inDom {
+			return mkSym(native, c.Ite(dom, exact, h.t))
+		}
+		m.Stubs["havoc:math.Mod"]++
+		return mkSym(h.c, c.Ite(dom, exact, h.t))
+	}
 	e["math.Float64bits"] = func(m *Machine, fr *frame, a []value) value {
 		return math.Float64bits(m.concretize(a[0]).(float64))
 	}
@@ -77,6 +104,15 @@ func registerExternals(m *Machine) {
 	}
 	e["strconv.FormatInt"] = func(m *Machine, fr *frame, a []value) value {
 		return strconv.FormatInt(asInt(m.concretize(a[0])), int(asInt(m.concretize(a[1]))))
+	}
+	e["strconv.FormatUint"] = func(m *Machine, fr *frame, a []value) value {
+		return strconv.FormatUint(bitsOf(m.concretize(a[0])), int(asInt(m.concretize(a[1]))))
+	}
+	e["strconv.FormatBool"] = func(m *Machine, fr *frame, a []value) value {
+		return strconv.FormatBool(m.concretize(a[0]).(bool))
+	}
+	e["strconv.Quote"] = func(m *Machine, fr *frame, a []value) value {
+		return strconv.Quote(m.concretizeStr(a[0]))
 	}
 	e["strconv.FormatFloat"] = func(m *Machine, fr *frame, a []value) value {
 		if isSym(a[0]) {
@@ -153,7 +189,13 @@ func registerExternals(m *Machine) {
 		return fmt.Sprint(m.hostArgs(fr, a[0].([]value))...)
 	}
 	e["fmt.Errorf"] = func(m *Machine, fr *frame, a []value) value {
-		msg := fmt.Sprintf(strings.ReplaceAll(m.concretizeStr(a[0]), "%w", "%v"), m.hostArgs(fr, a[1].([]value))...)
+		// message text is observed by no property: arguments are pinned, not enumerated
+		args := a[1].([]value)
+		pinned := make([]value, len(args))
+		for i := range args {
+			pinned[i] = m.pinDeep(args[i])
+		}
+		msg := fmt.Sprintf(strings.ReplaceAll(m.concretizeStr(a[0]), "%w", "%v"), m.hostArgs(fr, pinned)...)
 		return m.newError(fr, msg)
 	}
 	e["fmt.Println"] = func(m *Machine, fr *frame, a []value) value { return tuple{int64(0), iface{}} }
@@ -550,6 +592,23 @@ func registerExternals(m *Machine) {
 	e["(*regexp.Regexp).String"] = func(m *Machine, fr *frame, a []value) value {
 		return hostRe(m, a[0]).String()
 	}
+}
+
+// havocFloat returns an unconstrained float64 of the environment: a fresh
+// variable whose value is whatever the solver's model says, or def when the
+// model does not mention it yet.
+func (m *Machine) havocFloat(tag string, def float64) *symv {
+	n, _ := m.Scratch["havocN"].(int)
+	m.Scratch["havocN"] = n + 1
+	name := fmt.Sprintf("havoc#%s#%d", tag, n)
+	v := m.Ctx.Var(name, sym.FP)
+	c := def
+	if mv, ok := m.Model[name]; ok {
+		c = mv.F()
+	} else {
+		m.Model[name] = sym.FPVal(c)
+	}
+	return &symv{c: c, t: v}
 }
 
 // asciiTable turns a predicate on runes into a term over a symbolic rune that
